@@ -790,7 +790,9 @@ impl JobList {
 
         // Update the job state.
         let job = &mut self.jobs[index];
-        if !job.state.is_alive() {
+        if !job.state.is_alive() || !job.is_owned {
+            // A job disowned in a subshell is not a child of this process, so
+            // `wait` never reports its state.
             // A process that has terminated never changes its state again, so
             // the given state is that of another process that has been assigned
             // the same process ID after the job's process was awaited. That
